@@ -73,6 +73,7 @@ func (x *schedRun) appReq(sid string) hReq {
 // runSchedule executes the scenario under one schedule prefix and returns, for every step beyond the prefix, the set
 // of alternatives that were available (for the enumeration of all interleavings).
 func runSchedule(r *Run, sc schedScenario, prefix []int) (alts [][]int, taken []int) {
+	sc.Cfg.Disc = nil // scheduled threads reach their own gated token endpoint through a per-thread TokenUri
 	s := newHSim(r, sc.Cfg)
 	s.schedMode = true
 	w := newSchedWorld(sc.Cfg)
